@@ -618,6 +618,7 @@ def run(ctx):
                                  "failed or a call returned 0 in the implementation trace"})
     if (not allok or ctx.failures) and not ctx.violations:
         search(ctx, exes)
+    core.init_contract(ctx, ["fiber_signal", "fiber_bounded_channel", "fiber_unbounded_channel", "fiber_unbounded_sp_channel", "fiber_multi_channel"])  # rt/h_init.c: real init on dirty memory
     core.finish(ctx, extra_assumptions=ASSUME)
 
 
@@ -643,6 +644,8 @@ def search(ctx, exes):
 
 
 def replay(ctx, payload):
+    if payload.get("harness") == "h_init":
+        return core.replay_init(ctx, payload)
     label = str(payload.get("harness", ""))
     catchall = label.endswith("+catchall")
     label = label[:-len("+catchall")] if catchall else label
